@@ -11,9 +11,14 @@
 (*   [t |-> "r", n |-> number]          indirect reference                  *)
 (*   [t |-> "a", e |-> <<values>>]      array                               *)
 (*   [t |-> "d", k |-> <<keys>>, e |-> <<values>>]   dictionary, keys sorted*)
-(*   [t |-> "st", k, e, body |-> id]    stream, only as the value of an     *)
+(*   [t |-> "st", k, e, body |-> id, p] stream, only as the value of an     *)
 (*        indirect object: dictionary entries other than /Length, /Filter,  *)
-(*        /DecodeParms, and the identity of the DECODED bytes               *)
+(*        /DecodeParms, the identity of the DECODED bytes, and p = the      *)
+(*        references reachable through /DecodeParms (e.g. /JBIG2Globals):   *)
+(*        the parameters with the top level and array elements resolved     *)
+(*        and everything that holds no reference replaced by null -- how    *)
+(*        the parameters are spelled is not compared, which objects they    *)
+(*        refer to is                                                       *)
 (* A source file is a function G from object numbers to                     *)
 (*   [k |-> "val", v |-> value] | [k |-> "ref", to |-> number] (7.3.10: an  *)
 (*   indirect object whose value is a reference) | [k |-> "free"] |         *)
@@ -89,7 +94,9 @@ Match(G, D, s, d) ==
     [] s.t = "d" -> IF d.t # "d" THEN Fail ELSE MatchEntries(G, D, s, d)
     [] s.t = "st" -> IF d.t # "st" THEN Fail
                      ELSE IF d.body # s.body THEN Fail
-                     ELSE MatchEntries(G, D, s, d)
+                     ELSE LET a == MatchEntries(G, D, s, d)
+                              b == Match(G, D, s.p, d.p)
+                          IN [ok |-> a.ok /\ b.ok, pairs |-> a.pairs \cup b.pairs]
     [] OTHER -> Fail
 
 (* Closure of the correspondence under Match.  ext = pairs fixed by the     *)
@@ -138,7 +145,8 @@ RepeatSame(events) ==
 (* supported (source encrypted, explicit /Crypt filter other than Identity)?*)
 RECURSIVE Refs(_)
 Refs(v) == CASE v.t = "r" -> {v.n}
-             [] v.t \in {"a", "d", "st"} -> UNION {Refs(v.e[i]) : i \in 1..Len(v.e)}
+             [] v.t \in {"a", "d"} -> UNION {Refs(v.e[i]) : i \in 1..Len(v.e)}
+             [] v.t = "st" -> UNION {Refs(v.e[i]) : i \in 1..Len(v.e)} \cup Refs(v.p)
              [] OTHER -> {}
 RECURSIVE ReachFrom(_, _, _)
 ReachFrom(G, seen, todo) ==
